@@ -116,6 +116,7 @@ type lintFile struct {
 		start, end int
 		key        string
 	}
+	nolint [][2]int // byte ranges of drops acknowledged with a nolint directive
 }
 
 func (f *lintFile) seq(key string) string {
@@ -323,7 +324,7 @@ func C18(r *simkit.Run) {
 			nops := t.Range("ops", 1, 3)
 			for i := 0; i < nops; i++ {
 				tb := pickTable(tables)
-				op := t.Weighted("op", 3, 2, 2, 2, 2, 2, 1, 1, 1, 1, 1)
+				op := t.Weighted("op", 3, 2, 2, 2, 2, 2, 1, 1, 1, 1, 1, 1)
 				if tb == nil {
 					op = 0
 				}
@@ -360,7 +361,14 @@ func C18(r *simkit.Run) {
 					if !room(tb.Name, 1) {
 						continue
 					}
-					s, e := emit(fmt.Sprintf("DROP TABLE `%s`", tb.Name))
+					// Sometimes the author acknowledges this drop with a statement-level nolint directive: it is
+					// then not reported, and the file still fails if another, unacknowledged drop is in it.
+					nolint := t.Chance("nolint-on-drop-table", 1, 6)
+					text := fmt.Sprintf("DROP TABLE `%s`", tb.Name)
+					if nolint {
+						text = strings.TrimSpace("-- atlas:nolint "+[]string{"DS102", "destructive", ""}[t.Draw("nolint-form", 3)]) + "\n" + text
+					}
+					s, e := emit(text)
 					pre := len(lf.events[tb.Name]) == 0 || strings.HasPrefix(lf.events[tb.Name][0], "pre:")
 					_, existed := before[tb.Name]
 					// The instance being dropped existed before the file iff the table did and was not
@@ -368,7 +376,11 @@ func C18(r *simkit.Run) {
 					preInstance := existed && pre && !contains(lf.events[tb.Name], "drop")
 					ev(tb.Name, "drop")
 					dropAt(s, e, tb.Name)
-					if preInstance {
+					if preInstance && nolint {
+						lf.nolint = append(lf.nolint, [2]int{s, e})
+						lf.desc = append(lf.desc, "DROP TABLE "+tb.Name+" (acknowledged with atlas:nolint)")
+						r.Probe("drop-acknowledged-with-nolint")
+					} else if preInstance {
 						lf.expect = append(lf.expect, lintExpect{code: "DS102", key: tb.Name, what: "table " + tb.Name, start: s, end: e})
 						lf.desc = append(lf.desc, "DROP TABLE "+tb.Name)
 					} else {
@@ -541,6 +553,31 @@ func C18(r *simkit.Run) {
 					tables[tb.Name] = nt
 					lf.desc = append(lf.desc, "DROP TABLE "+tb.Name+" then CREATE TABLE of the same name")
 					r.Probe("table-dropped-and-re-created")
+				case 11: // an unrelated table that happens to be called new_<t>, other work, then DROP TABLE <t>
+					if busy(tableKeys(tb)...) || tables["new_"+tb.Name] != nil {
+						continue
+					}
+					if _, existed := before[tb.Name]; !existed {
+						continue
+					}
+					nt := &lTable{Name: "new_" + tb.Name, Cols: []lCol{{Name: "id", Type: "integer"}}}
+					ot := &lTable{Name: fmt.Sprintf("o%d", next()), Cols: []lCol{{Name: "id", Type: "integer"}, {Name: "v", Type: "integer"}}}
+					emit(nt.createSQL(nt.Name))
+					emit(ot.createSQL(ot.Name), fmt.Sprintf("CREATE INDEX `i%d` ON `%s` (`v`)", next(), ot.Name))
+					s, e := emit(fmt.Sprintf("DROP TABLE `%s`", tb.Name))
+					for _, k := range tableKeys(nt) {
+						ev(k, "add")
+					}
+					for _, k := range tableKeys(ot) {
+						ev(k, "add")
+					}
+					ev(tb.Name, "drop")
+					dropAt(s, e, tb.Name)
+					lf.expect = append(lf.expect, lintExpect{code: "DS102", key: tb.Name, what: "table " + tb.Name + " (after an unrelated CREATE TABLE new_" + tb.Name + ")", start: s, end: e})
+					tables[nt.Name], tables[ot.Name] = nt, ot
+					delete(tables, tb.Name)
+					lf.desc = append(lf.desc, fmt.Sprintf("CREATE TABLE new_%s (unrelated); create %s with an index; DROP TABLE %s", tb.Name, ot.Name, tb.Name))
+					r.Probe("unrelated-table-named-like-a-rebuild-temporary")
 				case 10: // a temporary column within the file
 					c := lCol{Name: fmt.Sprintf("x%d", next()), Type: "text"}
 					s, e := emit(fmt.Sprintf("ALTER TABLE `%s` ADD COLUMN `%s` text NULL", tb.Name, c.Name), fmt.Sprintf("ALTER TABLE `%s` DROP COLUMN `%s`", tb.Name, c.Name))
@@ -644,6 +681,11 @@ func C18(r *simkit.Run) {
 			}
 		}
 		for i, d := range ds {
+			for _, nl := range f.nolint {
+				if d.Pos >= nl[0] && d.Pos < nl[1] {
+					used[i] = true // what lint says about an acknowledged drop is not C18's subject
+				}
+			}
 			if !used[i] {
 				key := ""
 				for _, dr := range f.drops {
